@@ -206,8 +206,17 @@ def candidate_stream(rng, n, length):
         elif r < cum[1]:  # indefinite Hessian: may or may not have curvature
             x = x + rng.standard_normal(n) * np.exp(rng.uniform(-3, 1))
             g = grad(x, 1)
-        elif r < cum[2]:  # zero step
+        elif r < cum[2]:  # zero step: the same point again, with the same gradient or (noisy / redefined objective) another one
             g = g.copy()
+            k = rng.random()
+            if k < 0.4:
+                g = g + rng.standard_normal(n) * float(np.linalg.norm(g) / np.sqrt(n) + 1e-300) * 0.1
+            elif k < 0.55:
+                # the objective is not differentiable / not defined here: a gradient with inf or nan components is offered once
+                bad = g.copy()
+                bad[int(rng.integers(0, n))] = float(gen.pick(rng, [np.nan, np.inf, -np.inf]))
+                yield x.copy(), bad
+                continue
         elif r < cum[3]:  # exact negative curvature
             s = rng.standard_normal(n)
             x = x + s
